@@ -59,6 +59,9 @@ pub struct GenCfg {
     pub max_hits: usize,
     /// Arbitrary legal status bits in TDT / DDW0 / detector field.
     pub free_status_bits: bool,
+    /// Several FEE IDs may travel on one link number (legal when validation is per FEE ID, i.e. in
+    /// stave mode only).
+    pub share_link_ids: bool,
     /// C13: readout frames to emit, in order, instead of generated conforming frames (first link
     /// only). When the plan is exhausted conforming frames follow.
     pub frame_plan: Vec<FrameSpec>,
@@ -94,6 +97,7 @@ impl GenCfg {
             period_jitter: 0,
             max_hits: rng.range(0, 6) as usize,
             free_status_bits: rng.chance(2, 3),
+            share_link_ids: false,
             frame_plan: Vec::new(),
         }
     }
@@ -634,6 +638,9 @@ pub fn gen_conforming(cfg: &GenCfg, rng: &mut Rng) -> Stream {
     for _ in 0..cfg.n_links {
         let link_id = loop {
             let l = if rng.chance(1, 12) { 15 } else { rng.below(12) as u8 };
+            if cfg.share_link_ids && !used_links.is_empty() && rng.chance(1, 2) {
+                break *rng.pick(&used_links);
+            }
             if !used_links.contains(&l) {
                 break l;
             }
@@ -690,10 +697,24 @@ pub fn gen_conforming(cfg: &GenCfg, rng: &mut Rng) -> Stream {
             plan: if links.is_empty() { cfg.frame_plan.iter().cloned().collect() } else { Default::default() },
         };
         let n_hbf = rng.range(cfg.hbfs.0, cfg.hbfs.1) as usize;
-        let mut orbit = rng.next_u32() >> 1;
+        // orbits are arbitrary; the only rule is that consecutive HBFs of a link differ. Three
+        // styles: increasing, increasing across the 32-bit wrap, arbitrary (non-monotonic).
+        let style = rng.below(4);
+        let mut orbit = match style {
+            1 => u32::MAX - rng.below(n_hbf as u64 * 2 + 1) as u32,
+            _ => rng.next_u32(),
+        };
         for h in 0..n_hbf {
             lg.gen_hbf(h, orbit);
-            orbit = orbit.wrapping_add(1 + rng.below(3) as u32);
+            orbit = match style {
+                2 | 3 => loop {
+                    let o = rng.next_u32();
+                    if o != orbit {
+                        break o;
+                    }
+                },
+                _ => orbit.wrapping_add(1 + rng.below(3) as u32),
+            };
         }
         links.push(LinkStream {
             link_id,
